@@ -200,6 +200,8 @@ Print Assumptions time_safe.
 Print Assumptions ing_rewrite_safe.
 Print Assumptions ing_rewrite_then_semi.
 Print Assumptions limit_req_key_bare_safe.
+Print Assumptions rewrite_path_safe.
+Print Assumptions rewrite_path_default_action_refuted.
 Print Assumptions ing_rate_word.
 Print Assumptions http_header_name_word.
 Print Assumptions grpc_service_fixed_safe.
